@@ -119,7 +119,8 @@ class CallSites(Unit):
         return None
 
     def replay(self, model, label):
-        return dict(confirmed=False, call='call-site scan', observed=label)
+        rp = replay_directed_all()
+        return rp if rp['confirmed'] else dict(confirmed=False, call='call-site scan', observed=label)
 
 
 class WritePacketLock(Unit):
@@ -153,7 +154,18 @@ class WritePacketLock(Unit):
         return None
 
     def replay(self, model, label):
-        return dict(confirmed=False, call='write_packet', observed='')
+        return replay_directed_all()
+
+    def bounded(self, rng, tier):
+        fails, cnt = [], 0
+        for enabled in (False, True):
+            for second in ('forced', 'drain'):
+                cnt += 1
+                rp = replay_directed(enabled, second)
+                if rp['confirmed']:
+                    fails.append(dict(call=rp['call'], observed=rp['observed'], witness='directed-schedule'))
+        return dict(name='%s.directed-schedules' % self.name, evaluations=cnt, failures=fails[:1],
+                    bound='4 directed two-thread schedules (intruder between the two sends of a frame)')
 
 
 class DisconnectFlush(Unit):
@@ -318,9 +330,12 @@ def replay_threads(nthreads, per_thread, enabled=False):
     pos, seen = 0, {}
     bad = None
     while pos < len(data):
-        fr = c01.decode_frame(data[pos:], enabled)
+        try:
+            fr = c01.decode_frame(data[pos:], enabled)
+        except Exception as e:
+            fr, bad = None, 'frame at byte %d does not decode (%s)' % (pos, e)
         if fr is None:
-            bad = 'stream does not parse as whole frames at byte %d' % pos
+            bad = bad or 'stream does not parse as whole frames at byte %d' % pos
             break
         payload, _, used = fr
         pos += used
@@ -335,6 +350,91 @@ def replay_threads(nthreads, per_thread, enabled=False):
                 bad = 'thread %d: order of its own packets not kept' % tid
     return dict(confirmed=bad is not None, call='%d threads x %d packets, compression=%r' % (nthreads, per_thread, enabled),
                 observed=bad or 'conforms')
+
+
+def replay_directed(enabled=False, second='forced'):
+    """One adversarial schedule, deterministically: while the draining thread is between the two sends of a queued
+    frame A, another thread attempts write_packet(B, force=True) (or a second drain).  With the lock held B must wait."""
+    conn = object.__new__(Connection)
+    conn._write_lock = threading.RLock()
+    conn.context = ConnectionContext(protocol_version=757)
+    conn._outgoing_packet_queue = deque()
+    conn.early_outgoing_packet_listeners, conn.outgoing_packet_listeners = [], []
+    conn.options = types.SimpleNamespace(compression_enabled=enabled, compression_threshold=16)
+    chunks, started = [], []
+
+    def mk(tid, n):
+        p = c01._Raw()
+        p.id = tid
+        p.raw = bytes([tid]) * n
+        return p
+    A, B, C = mk(1, 40), mk(2, 33), mk(3, 9)
+
+    def intruder():
+        if second == 'forced':
+            conn.write_packet(B, force=True)
+        else:
+            with conn._write_lock:
+                conn._pop_packet()
+
+    class Sock(object):
+        def send(self, d):
+            chunks.append(bytes(d))
+            if not started:
+                started.append(threading.Thread(target=intruder))
+                started[0].start()
+                started[0].join(0.25)        # returns early only if the intruder was NOT made to wait
+    conn.socket = Sock()
+    conn.write_packet(A)
+    if second != 'forced':
+        conn.write_packet(C)
+    with conn._write_lock:
+        conn._pop_packet()
+    if started:
+        started[0].join(5)
+    with conn._write_lock:
+        while conn._pop_packet():
+            pass
+    data, pos, ids = b''.join(chunks), 0, []
+    bad = None
+    while pos < len(data):
+        try:
+            fr = c01.decode_frame(data[pos:], enabled)
+        except Exception as e:
+            fr, bad = None, 'frame at byte %d does not decode (%s)' % (pos, e)
+        if fr is None:
+            bad = bad or 'stream does not parse as whole frames at byte %d' % pos
+            break
+        payload, _, used = fr
+        pos += used
+        if len(set(payload)) != 1:
+            bad = 'a frame carries bytes of two packets'
+            break
+        ids.append(payload[0])
+    want = [1, 2] if second == 'forced' else [1, 3]
+    if bad is None and ids != want:
+        bad = 'frames on the wire %r, expected %r' % (ids, want)
+    return dict(confirmed=bad is not None,
+                call='thread T1 drains queued packet A; between its two sends thread T2 does %s (compression=%r)' % (
+                    'write_packet(B, force=True)' if second == 'forced' else 'a second _pop_packet under its own lock', enabled),
+                observed=bad or 'conforms')
+
+
+def replay_directed_all():
+    for enabled in (False, True):
+        for second in ('forced', 'drain'):
+            rp = replay_directed(enabled, second)
+            if rp['confirmed']:
+                return rp
+    return rp
+
+
+def c01_units():
+    us = []
+    for u, nm in ((CallSites(), 'C01.writer.lock.callsites'), (WritePacketLock(), 'C01.writer.lock.write_packet')):
+        u.prop, u.name = 'C01', nm
+        us.append(u)
+    return us
 
 
 def units(tier):
